@@ -280,6 +280,50 @@ func (e *Engine) exprText(n ast.Node) string {
 	return strings.Join(strings.Fields(string(src[p1.Offset:p2.Offset])), " ")
 }
 
+// ReturnTextAt returns the normalised source text of the results of the return statement at pos
+// ("snapshot.LastIncludedIndex, nil"), "" for a bare return or when the statement is not found.
+func (e *Engine) ReturnTextAt(pos token.Pos) string {
+	file := e.syntaxFile(pos)
+	if file == nil {
+		return ""
+	}
+	var out string
+	ast.Inspect(file, func(n ast.Node) bool {
+		if rs, ok := n.(*ast.ReturnStmt); ok && rs.Return == pos {
+			var parts []string
+			for _, r := range rs.Results {
+				parts = append(parts, e.exprText(r))
+			}
+			out = strings.Join(parts, ", ")
+			return false
+		}
+		return true
+	})
+	return out
+}
+
+// IfCondTextAt returns the normalised source text of the condition of the innermost if statement whose
+// condition spans pos ("" when there is none).
+func (e *Engine) IfCondTextAt(pos token.Pos) string {
+	file := e.syntaxFile(pos)
+	if file == nil {
+		return ""
+	}
+	var best *ast.IfStmt
+	ast.Inspect(file, func(n ast.Node) bool {
+		if is, ok := n.(*ast.IfStmt); ok && is.Cond != nil && is.Cond.Pos() <= pos && pos <= is.Cond.End() {
+			if best == nil || (is.Cond.End()-is.Cond.Pos()) < (best.Cond.End()-best.Cond.Pos()) {
+				best = is
+			}
+		}
+		return true
+	})
+	if best == nil {
+		return ""
+	}
+	return e.exprText(best.Cond)
+}
+
 // syntaxFile finds the *ast.File containing pos.
 func (e *Engine) syntaxFile(pos token.Pos) *ast.File {
 	if !pos.IsValid() {
